@@ -1,5 +1,6 @@
 //! overlay access module (child of `solvers::levmar`): exposes crate-private state to the engine-R harness.
 //! Compiled only in the scratch overlay under `--cfg verif_sym`; never part of /repo.
+//! Kept minimal on purpose: every private name used here is a way for a refactoring to break the harness build.
 use super::*;
 
 pub fn svd_epsilon<Model, const MRHS: bool, const PAR: bool>(p: &LevMarProblem<Model, MRHS, PAR>) -> <Model::ScalarType as ComplexField>::RealField
@@ -8,32 +9,4 @@ where
     Model::ScalarType: Scalar + ComplexField + Copy,
 {
     p.svd_epsilon.clone()
-}
-pub fn cache_present<Model, const MRHS: bool, const PAR: bool>(p: &LevMarProblem<Model, MRHS, PAR>) -> bool
-where
-    Model: SeparableNonlinearModel,
-    Model::ScalarType: Scalar + ComplexField + Copy,
-{
-    p.cached.is_some()
-}
-pub fn y_w<Model, const MRHS: bool, const PAR: bool>(p: &LevMarProblem<Model, MRHS, PAR>) -> DMatrix<Model::ScalarType>
-where
-    Model: SeparableNonlinearModel,
-    Model::ScalarType: Scalar + ComplexField + Copy,
-{
-    p.Y_w.clone()
-}
-pub fn cached_coefficients<Model, const MRHS: bool, const PAR: bool>(p: &LevMarProblem<Model, MRHS, PAR>) -> Option<DMatrix<Model::ScalarType>>
-where
-    Model: SeparableNonlinearModel,
-    Model::ScalarType: Scalar + ComplexField + Copy,
-{
-    p.cached.as_ref().map(|c| c.linear_coefficients.clone())
-}
-pub fn mk_fit_result<Model, const MRHS: bool>(problem: LevMarProblem<Model, MRHS, false>, report: MinimizationReport<Model::ScalarType>) -> FitResult<Model, MRHS>
-where
-    Model: SeparableNonlinearModel,
-    Model::ScalarType: RealField + Scalar + Float,
-{
-    FitResult::new(problem, report)
 }
